@@ -123,7 +123,12 @@ impl RefIndex {
                     self.index_node(graph, child_id);
                 });
             }
-            GraphNode::Table(_) => {}
+            GraphNode::Table(table) => {
+                // a table has no children but the blocks after it still have to be indexed
+                table.next_id().map(|child_id| {
+                    self.index_node(graph, child_id);
+                });
+            }
         }
     }
 }
